@@ -576,58 +576,65 @@ class AsyncGenericDriver(AsyncDriver, BaseGenericDriver):
 
         original_transport_timeout = self.timeout_transport
 
-        # if the read_timeout value is -1.0 or just less than 0, that indicates we should use
-        # the "normal" transport timeout and not modify anything
-        self.timeout_transport = read_timeout if read_timeout >= 0 else self.timeout_transport
-
         _read_delay = 0.1 if read_delay <= 0 else read_delay
 
-        while True:
-            try:
-                read_output += await self.channel.read()
-            except ScrapliTimeout as exc:
-                self.timeout_transport = original_transport_timeout
+        matched_callback: Optional["ReadCallback"] = None
 
-                raise ScrapliTimeout("timeout during read in read_callback operation") from exc
+        try:
+            # if the read_timeout value is -1.0 or just less than 0, that indicates we should use
+            # the "normal" transport timeout and not modify anything
+            self.timeout_transport = read_timeout if read_timeout >= 0 else self.timeout_transport
 
-            for callback in callbacks:
-                _run_callback = callback.check(read_output=read_output)
+            while matched_callback is None:
+                try:
+                    read_output += await self.channel.read()
+                except ScrapliTimeout as exc:
+                    raise ScrapliTimeout("timeout during read in read_callback operation") from exc
 
-                if (
-                    _run_callback is True
-                    and callback.only_once is True
-                    and callback._triggered is True  # pylint: disable=W0212
-                ):
-                    self.logger.warning(
-                        f"callback {callback.name} matches but is set to 'only_once', "
-                        "skipping this callback"
-                    )
+                for callback in callbacks:
+                    _run_callback = callback.check(read_output=read_output)
 
-                    continue
+                    if (
+                        _run_callback is True
+                        and callback.only_once is True
+                        and callback._triggered is True  # pylint: disable=W0212
+                    ):
+                        self.logger.warning(
+                            f"callback {callback.name} matches but is set to 'only_once', "
+                            "skipping this callback"
+                        )
 
-                if _run_callback is True:
-                    self.logger.info(f"callback {callback.name} matched, executing")
+                        continue
 
-                    self.timeout_transport = original_transport_timeout
+                    if _run_callback is True:
+                        matched_callback = callback
 
-                    coro = callback.run(driver=self)
-                    if coro is not None:
-                        # should always be a coroutine in this case, this appeases mypy
-                        await coro
+                        break
+                else:
+                    await asyncio.sleep(_read_delay)
+        finally:
+            # the temporary transport timeout only ever applies to the reading above, put the
+            # original value back regardless of how we got here (match, timeout, lost connection...)
+            self.timeout_transport = original_transport_timeout
 
-                    if callback.complete:
-                        self.logger.debug("callback complete is true, done with read_callback")
-                        return None
+        self.logger.info(f"callback {matched_callback.name} matched, executing")
 
-                    if callback.reset_output:
-                        read_output = b""
+        coro = matched_callback.run(driver=self)
+        if coro is not None:
+            # should always be a coroutine in this case, this appeases mypy
+            await coro
 
-                    return await self.read_callback(
-                        callbacks=callbacks,
-                        initial_input=None,
-                        read_output=read_output,
-                        read_delay=callback.next_delay,
-                        read_timeout=callback.next_timeout,
-                    )
+        if matched_callback.complete:
+            self.logger.debug("callback complete is true, done with read_callback")
+            return None
 
-            await asyncio.sleep(_read_delay)
+        if matched_callback.reset_output:
+            read_output = b""
+
+        return await self.read_callback(
+            callbacks=callbacks,
+            initial_input=None,
+            read_output=read_output,
+            read_delay=matched_callback.next_delay,
+            read_timeout=matched_callback.next_timeout,
+        )
